@@ -20,7 +20,7 @@ LEVEL = "fault_enumeration"
 RULE = (
     "per (model, history group): 3 seeded kernels of the model's ISA from the shipped corpus; one *case* = one report of one "
     "kernel produced by a driver process at one step of a cache history (cold / no-cache / warm companion / warm home cache / "
-    "second load in one process / stale internal_version / model edited, reverted, edited in-process / model changed in memory only by a cold-loading process / header-only (lazy) load as the first access of a cold home / ISA description edited between runs and in-process / model given by path under user-chosen (dotted) file names through the library entry points: cold, warm, edited, reverted / same name other "
+    "second load in one process / stale internal_version / model edited, reverted, edited in-process / model changed in memory only by a cold-loading process / header-only (lazy) load as the first access of a cold home / a cache file left behind by an earlier installation (fixtures/c17) / ISA description edited between runs and in-process / model given by path under user-chosen (dotted) file names through the library entry points: cold, warm, edited, reverted / same name other "
     "content in a shared home cache / package-directory cache / cache file cut at 0, 10 bytes, seeded middle, last byte / "
     "writer killed after k bytes (k seeded, four offset classes) / 8 racing cold starts, released together or staggered with "
     "a pre-empted writer, then one more run / 8 racing cold starts on two different models of one directory held at a barrier in "
